@@ -147,7 +147,7 @@ func runC16(args []string) error {
 		for sc.Scan() {
 			var b struct {
 				Stream, Src                   []int
-				W, H, C, P, Levels, Cbw, Cbh int
+				W, H, C, P, Levels, Cbw, Cbh, Tw, Th int
 				Mct                           bool
 				Cls                           string
 			}
@@ -170,7 +170,7 @@ func runC16(args []string) error {
 			if es == "" {
 				out = containerValues(d.pix, b.P)
 			}
-			t.Event("j2krev", "cfg", json.RawMessage(fmt.Sprintf(`{"w":%d,"h":%d,"c":%d,"p":%d,"levels":%d,"cbw":%d,"cbh":%d,"mct":%v,"cls":"%s"}`, b.W, b.H, b.C, b.P, b.Levels, b.Cbw, b.Cbh, b.Mct, b.Cls)),
+			t.Event("j2krev", "cfg", json.RawMessage(fmt.Sprintf(`{"w":%d,"h":%d,"c":%d,"p":%d,"levels":%d,"cbw":%d,"cbh":%d,"mct":%v,"cls":"%s","tw":%d,"th":%d}`, b.W, b.H, b.C, b.P, b.Levels, b.Cbw, b.Cbh, b.Mct, b.Cls, b.Tw, b.Th)),
 				"src", b.Src, "out", out, "gw", d.w, "gh", d.h, "gc", d.c, "gp", d.p, "err", es)
 			nrev++
 		}
